@@ -83,8 +83,9 @@ static inline void* y_memcpy_skel(void* d, uint64_t n) { __CPROVER_assert(n <= 8
 
 /* std::string_view */
 typedef struct y_sv { const char* data; uint64_t size; } y_sv;
-#define Y_EMPTY_STR ((const char*)"")
-static inline y_sv y_sv_from_cstr(const char* s) { y_sv r; r.data = s; r.size = 0; return r; }   /* only "" occurs */
+static const char y_empty_str[1] = {0};
+#define Y_EMPTY_STR ((const char*)y_empty_str)
+static inline y_sv y_sv_from_cstr(const char* s) { y_sv r; r.data = s; r.size = (s == Y_EMPTY_STR) ? 0 : nondet_u64(); return r; }   /* string_view(const char*): length = strlen, unknown unless it is the literal "" */
 static inline void y_sv_remove_prefix(y_sv* s, uint64_t n) { s->data += n; s->size -= n; }
 /* compare: abstracted to its sign through a ghost oracle that is consistent with length-0 cases; units that need the
  * exact byte semantics define Y_SV_COMPARE_EXACT */
@@ -137,7 +138,7 @@ static inline void* y_alloc_node(uint64_t size)
   __CPROVER_assume(p != 0);
   __CPROVER_assume((((uint64_t)p) & (3UL << 62)) == 0);
   if (y_nodes.new_cnt < 4) y_nodes.new_ptr[y_nodes.new_cnt] = p;
-  y_nodes.new_cnt++;
+  Y_SAT_INC(y_nodes.new_cnt);
   return p;
 }
 static inline void y_free_node_raw(void* p)
@@ -177,6 +178,22 @@ unsigned y_ev;
 /* rely condition on the values an interfering environment may make a location hold (default: anything).
  * A unit that restricts it (`//@ rely S`) states the restriction as writer-side obligations elsewhere. */
 #define Y_RELY_DEFAULT(T, S) static inline _Bool y_rely_##S(T* loc, T v) { (void)loc; (void)v; return 1; }
+/* -DY_NO_GHOST_LOG: sequential-only atomics without the ghost event record (units that do not refer to it; far fewer
+ * instrumented assignments for dfcc). The ghost types still exist so that shared contract text compiles. */
+#ifdef Y_NO_GHOST_LOG
+#define Y_DEFINE_ATOMIC(T, S) \
+  T nondet_##S(void); \
+  _Bool y_arb_##S; \
+  typedef struct y_ghost_##S { unsigned ld_cnt; T ld_val; T* ld_loc; unsigned cas_ok; unsigned cas_fail; T cas_old; T cas_new; T* cas_loc; \
+                               unsigned st_cnt; T st_val; T* st_loc; unsigned st_ev; unsigned cas_ev; T cas_seen; T obs; } y_ghost_##S; \
+  y_ghost_##S y_g_##S; \
+  static inline T Y_LOAD_##S(T* loc) { return *loc; } \
+  static inline void Y_STORE_##S(T* loc, T v) { *loc = v; } \
+  static inline _Bool Y_CAS_##S(T* loc, T* expected, T desired) { \
+    if ((y_memcmp16(loc, expected, sizeof(T)) == 0) && nondet_bool()) { *loc = desired; return 1; } \
+    *expected = *loc; return 0; }
+
+#else
 #define Y_DEFINE_ATOMIC(T, S) \
   T nondet_##S(void); \
   _Bool y_arb_##S; \
@@ -195,9 +212,16 @@ unsigned y_ev;
     y_g_##S.cas_seen = *expected; y_g_##S.obs = *expected; \
     return 0; }
 
+#endif
+#ifdef Y_NO_GHOST_LOG
+#define Y_DEFINE_ATOMIC_ARITH(T, S) \
+  static inline T Y_FADD_##S(T* loc, T d) { T o = *loc; *loc = (T)(o + d); return o; } \
+  static inline T Y_FSUB_##S(T* loc, T d) { T o = *loc; *loc = (T)(o - d); return o; }
+#else
 #define Y_DEFINE_ATOMIC_ARITH(T, S) \
   static inline T Y_FADD_##S(T* loc, T d) { T o = *loc; *loc = (T)(o + d); Y_SAT_INC(y_g_##S.st_cnt); y_g_##S.st_val = *loc; y_g_##S.st_loc = loc; y_g_##S.st_ev = ++y_ev; return o; } \
   static inline T Y_FSUB_##S(T* loc, T d) { T o = *loc; *loc = (T)(o - d); Y_SAT_INC(y_g_##S.st_cnt); y_g_##S.st_val = *loc; y_g_##S.st_loc = loc; y_g_##S.st_ev = ++y_ev; return o; }
+#endif
 
 /* concurrent_queue<T>: UNBOUNDED model. The queue is its length plus ghost counters; try_pop on a non-empty queue either fails
  * spuriously (TBB allows that under contention) or yields an ARBITRARY element (the next element of an arbitrary sequence), so
